@@ -43,7 +43,7 @@ ASPECTS = ("decode", "yield")
 
 
 def budget(tier):
-    return 2500 if tier == "quick" else 120_000
+    return 8000 if tier == "quick" else 120_000
 
 
 def wall(tier):
